@@ -164,7 +164,7 @@ def parse_spec(path):
             cur_fn.r6[n] = sec
             section = sec
         elif s.startswith("%proof") and cur_fn is not None:
-            m = re.match(r'%proof\s+(before|afterblock|after|start|inloop)(?:\s+"(.*)")?(?:\s+#(\d+))?\s*$', s)
+            m = re.match(r'%proof\s+(before|afterblock|after|start|inloop|endloop|end)(?:\s+"(.*)")?(?:\s+#(\d+))?\s*$', s)
             if not m:
                 raise Undecided("bad %%proof at %s:%d" % (path, lineno))
             sec = []
@@ -178,7 +178,7 @@ def parse_spec(path):
             cur_fn.proofs.append((m.group(1), m.group(2), int(m.group(3) or 0), sec, None))
             section = sec
         elif s.startswith("%ghost") and cur_fn is not None:
-            m = re.match(r'%ghost\s+(before|afterblock|after|start|inloop)(?:\s+"(.*)")?(?:\s+#(\d+))?\s*$', s)
+            m = re.match(r'%ghost\s+(before|afterblock|after|start|inloop|endloop|end)(?:\s+"(.*)")?(?:\s+#(\d+))?\s*$', s)
             if not m:
                 raise Undecided("bad %%ghost at %s:%d" % (path, lineno))
             sec = []
@@ -583,7 +583,20 @@ def fn_inserts(u, m, d, it, info, used_fns, probe_fn):
             ptxt = "\n" + mac + " {\n" + spec_lines_to_text(sec) + "\n}\n"
         if where == "start":
             pos = it["body_start"] + 1
-        elif where == "inloop":
+        elif where == "end":
+            # before the closing brace of the function body (only for bodies that end with a statement)
+            tail = body[:it["body_end"] - it["body_start"] - 1].rstrip()
+            while True:  # skip trailing line comments
+                nl = tail.rfind("\n")
+                last = tail[nl + 1:]
+                if last.strip().startswith("//"):
+                    tail = tail[:nl + 1].rstrip() if nl >= 0 else ""
+                else:
+                    break
+            if not (tail.endswith(";") or tail.endswith("}")):
+                raise Undecided("anchor lost (`end` needs a body ending with a statement in %s)" % full)
+            pos = it["body_end"] - 1
+        elif where in ("inloop", "endloop"):
             # at the start of the body of the loop whose header contains the anchor (same pairing rule as %loop)
             cands = [l for l in loops if norm(anchor) in l["header"]]
             if len(cands) <= occ:
@@ -594,7 +607,7 @@ def fn_inserts(u, m, d, it, info, used_fns, probe_fn):
                     raise Undecided("anchor lost (inloop in %s): %r" % (full, anchor))
             else:
                 occ2 = occ
-            pos = cands[occ2]["body_open"] + 1
+            pos = cands[occ2]["body_open"] + 1 if where == "inloop" else cands[occ2]["body_close"]
         else:
             a, z = find_anchor(body, anchor, occ, "proof in " + full)
             if where == "afterblock":
